@@ -21,6 +21,8 @@ type rdState struct {
 	r         text.Reader
 	saved     [][2]interface{} // (line, Segment)
 	savedView [][]byte
+	// what the next operation has to be (see the operation choice)
+	askColumn, askRestore, askSave, restoreLast bool
 }
 
 func (st *rdState) isBlock() bool { return st.lines != nil }
@@ -108,7 +110,17 @@ func c18Run(c *Ctx, st *rdState, nOps int, stream string) {
 			line0, pos0 := st.r.Position()
 			rest0 := st.rest()
 			var op, out string
-			switch k := c.R.Intn(20); {
+			k := c.R.Intn(20)
+			if st.askColumn {
+				// the column is asked for right after every move that can leave a cached column
+				// behind: restoring a position, changing the padding, advancing inside a padding
+				k, st.askColumn = 14, false
+			} else if st.askSave {
+				k, st.askSave = 11, false
+			} else if st.askRestore && len(st.saved) > 0 {
+				k, st.askRestore, st.restoreLast = 12, false, true
+			}
+			switch {
 			case k < 3:
 				op = "pl"
 				b, s := st.r.PeekLine()
@@ -140,6 +152,10 @@ func c18Run(c *Ctx, st *rdState, nOps int, stream string) {
 					}
 				}
 				op = "ad" + itoa(n)
+				if pos0.Padding > 0 {
+					// a move inside (or out of) a padding: ask the column, then go back to a saved position
+					st.askColumn, st.askRestore = true, true
+				}
 				st.r.Advance(n)
 				if rest1 := st.rest(); !bytes.Equal(rest1, rest0[min(n, len(rest0)):]) {
 					fail("law:Advance", fmt.Sprintf("Advance(%d): remaining %q, expected %q", n, rest1, rest0[min(n, len(rest0)):]))
@@ -164,6 +180,7 @@ func c18Run(c *Ctx, st *rdState, nOps int, stream string) {
 				}
 				p := c.R.Intn(4)
 				op = fmt.Sprintf("ap%d.%d", idx+1, p)
+				st.askColumn, st.askSave = c.R.Bool(), true
 				st.r.AdvanceAndSetPadding(idx+1, p)
 			case k < 11:
 				// SetPadding only where a padding has a meaning: directly behind a tab
@@ -186,7 +203,11 @@ func c18Run(c *Ctx, st *rdState, nOps int, stream string) {
 					break
 				}
 				i := c.R.Intn(len(st.saved))
+				if st.restoreLast {
+					i, st.restoreLast = len(st.saved)-1, false
+				}
 				op = "re" + itoa(i)
+				st.askColumn = true
 				st.r.SetPosition(st.saved[i][0].(int), st.saved[i][1].(text.Segment))
 				b, _ := st.r.PeekLine()
 				if !bytes.Equal(b, st.savedView[i]) {
